@@ -1,6 +1,9 @@
 package ref
 
-import "bytes"
+import (
+	"bytes"
+	"strings"
+)
 
 // Node is a JSON value with its source span; objects keep every member in
 // source order, duplicates included.
@@ -177,6 +180,35 @@ func EarlierDuplicates(doc []byte) []DupRef {
 			for i, k := range x.Keys {
 				if last[k.Str] != i {
 					out = append(out, DupRef{ids[x], i})
+				}
+			}
+		}
+		for _, e := range x.Elems {
+			walk(e)
+		}
+	}
+	walk(root)
+	return out
+}
+
+// EarlierDuplicatesFold is EarlierDuplicates with keys compared under Unicode case folding: members that
+// bind to the same struct field (encoding/json matches field names case-insensitively) count as duplicates.
+func EarlierDuplicatesFold(doc []byte) []DupRef {
+	root := Parse(doc)
+	if root == nil {
+		return nil
+	}
+	ids := numberObjects(root)
+	var out []DupRef
+	var walk func(x *Node)
+	walk = func(x *Node) {
+		if x.Kind == TObjOpen {
+			for i, k := range x.Keys {
+				for j := i + 1; j < len(x.Keys); j++ {
+					if strings.EqualFold(k.Str, x.Keys[j].Str) {
+						out = append(out, DupRef{ids[x], i})
+						break
+					}
 				}
 			}
 		}
